@@ -9,27 +9,53 @@ PID = 'C20'
 
 # ------------------------------------------------------------------------------------ argument sets
 def build_args(name):
+    """Argument sets.  'X@removed' is X after one in-place remove_nasty_arc(acc, lm) (the documented
+    in-place operation), used as the reference state for histories that contain that call."""
     import dsw
-    if name == 'literal2':
+    base, _, variant = name.partition('@')
+    A = _build_base(base)
+    if variant == 'removed':
+        try:
+            dsw.remove_nasty_arc(A['acc'], A['lm'])
+        except Exception:
+            pass
+    return A
+
+
+def _build_base(name):
+    import dsw
+    if name in ('literal2', 'other2'):
         k = 2
-        G = [list(x) for x in coder.LITERAL]
-        bits = [0, 1, 0, 1, 0, 1, 0, 1]
-        strand, corrupted, start = 'TCTCTCT', 'TCTCTATCTCTC', 1
-        filt = dsw.LocalBioFilter(observed_length=2, max_homopolymer_runs=1, gc_range=[0.5, 0.5])
-    elif name == 'generated3':
+        if name == 'literal2':
+            G = [list(x) for x in coder.LITERAL]
+            bits = [0, 1, 0, 1, 0, 1, 0, 1]
+            strand, corrupted, start = 'TCTCTCT', 'TCTCTATCTCTC', 1
+        else:
+            c = O.compile_cfg((2, 1, None, None))
+            mask = {v for v in range(16) if O.seq_ok_c(c, O.kmer(v, 2))}
+            G = O.from_mask(O.gfp(mask, 2, 2), 2)
+            start = sorted(O.has_arcs(G))[2]
+            bits = [1, 1, 0, 1, 0, 0, 1, 1]
+            strand = O.ref_encode(bits, G, start)
+            w = U.walks_dev(G, start, 12, 1)[3]
+            corrupted = w[:5] + w[4] + w[6:]
+        filt = dsw.LocalBioFilter(observed_length=2, max_homopolymer_runs=1, gc_range=[0.5, 0.5] if name == 'literal2' else None)
+    elif name in ('generated3', 'other3'):
         k = 3
-        c = O.compile_cfg((3, 2, None, ['GC']))
+        c = O.compile_cfg((3, 2, None, ['GC'])) if name == 'generated3' else O.compile_cfg((3, None, ('0.3', '0.7'), None))
         mask = {v for v in range(64) if O.seq_ok_c(c, O.kmer(v, 3))}
         G = O.from_mask(O.gfp(mask, 3, 2), 3)
-        start = sorted(O.has_arcs(G))[0]
+        start = sorted(O.has_arcs(G))[0 if name == 'generated3' else 5]
         bits = [1, 0, 1, 1, 0, 0, 1, 0, 1, 1]
         strand = O.ref_encode(bits, G, start)
         w = U.walks_dev(G, start, 14, 0)[0]
-        corrupted, strand = w[:6] + ('A' if w[6] != 'A' else 'C') + w[7:], strand
-        filt = dsw.LocalBioFilter(observed_length=3, max_homopolymer_runs=2, undesired_motifs=['GC'])
+        corrupted = w[:6] + ('A' if w[6] != 'A' else 'C') + w[7:]
+        filt = dsw.LocalBioFilter(observed_length=3, max_homopolymer_runs=2, undesired_motifs=['GC']) if name == 'generated3' \
+            else dsw.LocalBioFilter(observed_length=3, gc_range=[0.3, 0.7])
     else:
         k = 1
-        G = [[0, 1, 2, 3], [0, -1, 2, -1], [-1, 1, -1, -1], [0, 1, 2, -1]]
+        G = [[0, 1, 2, 3], [0, -1, 2, -1], [-1, 1, -1, -1], [0, 1, 2, -1]] if name == 'mixed1' else \
+            [[-1, 1, 2, -1], [0, 1, -1, 3], [0, 1, 2, 3], [-1, -1, 2, -1]]
         start = 0
         bits = [1, 1, 0, 1, 0, 0, 1]
         strand = O.ref_encode(bits, G, start)
@@ -41,6 +67,7 @@ def build_args(name):
     A = {
         'k': k, 'acc': acc, 'lm': {int(v): [w for w in G[v] if w >= 0] for v in live},
         'mask': np.array([1 if v in live else 0 for v in range(n)], dtype=int),
+        'mask_bool': np.array([(v in live) or (v % 3 == 0) for v in range(n)], dtype=bool),
         'bits': np.array(bits, dtype=int), 'table': np.array(U.table_latin(n, 1), dtype=int),
         'strand': strand, 'corrupted': corrupted, 'start': start, 'filter': filt,
         'matrix': np.array([[1 if w in [x for x in G[u] if x >= 0] else 0 for w in range(n)] for u in range(n)], dtype=int),
@@ -88,6 +115,9 @@ def ops():
     add('coding_graph_t1', lambda d, A, **v: d.connect_coding_graph(A['k'], A['mask'], 1, **v), True)
     add('coding_graph_t2', lambda d, A, **v: d.connect_coding_graph(A['k'], A['mask'], 2, **v), True)
     add('coding_graph_t3', lambda d, A, **v: d.connect_coding_graph(A['k'], A['mask'], 3, **v), True)
+    add('coding_graph_bool_t1', lambda d, A, **v: d.connect_coding_graph(A['k'], A['mask_bool'], 1, **v), True)
+    add('coding_graph_bool_t2', lambda d, A, **v: d.connect_coding_graph(A['k'], A['mask_bool'], 2, **v), True)
+    add('valid_graph_bool', lambda d, A, **v: d.connect_valid_graph(A['k'], A['mask_bool'], **v), True)
     add('capacity_1', lambda d, A, **v: d.approximate_capacity(A['acc'], repeats=1, **v), True)
 
     def cap3(d, A, **v):
@@ -96,6 +126,8 @@ def ops():
     add('capacity_3_seeded', cap3, True)
     add('scores', lambda d, A, **v: d.calculate_intersection_score(A['lm'], observed_length=A['k'], **v), True)
     add('shuffles', lambda d, A, **v: d.create_random_shuffles(A['k'], random_seed=7, **v), True)
+    add('shuffles_other_seed', lambda d, A, **v: d.create_random_shuffles(A['k'], random_seed=8, **v), True)
+    add('remove_arc_inplace', lambda d, A, **v: d.remove_nasty_arc(A['acc'], A['lm'], **v), True)
     add('remove_arc_on_copies', lambda d, A, **v: d.remove_nasty_arc(A['acc'].copy(), copy.deepcopy(A['lm']), **v), True)
     add('calc_add', lambda d, A: d.calculus_addition(A['number'], '7'))
     add('calc_sub', lambda d, A: d.calculus_subtraction(A['number'], '7'))
@@ -118,35 +150,64 @@ def get_ops():
     return OPS
 
 
-def run_op(name, A, verbose=False):
+def run_op(name, A, verbose=False, raw=False):
     import dsw
     f, acc_v = get_ops()[name]
     kw = {'verbose': True} if (verbose and acc_v) else {}
     with capture() as buf:
         st, res, _ = brun(f, dsw, A, lim=50000000, **kw)
     if st == 'ok':
-        return ('ok', snap(res)), buf.getvalue()
-    if st == 'exc':
-        return ('exc', type(res).__name__, str(res)[:200]), buf.getvalue()
-    return ('budget',), buf.getvalue()
+        out = ('ok', snap(res))
+    elif st == 'exc':
+        out = ('exc', type(res).__name__, str(res)[:200])
+        res = None
+    else:
+        out = ('budget',)
+        res = None
+    if raw:
+        return out, buf.getvalue(), res
+    return out, buf.getvalue()
 
 
 def args_snap(A):
     return {k: snap(v) for k, v in A.items()}
 
 
+def scribble(x, depth=0):
+    """What a caller may legitimately do with a result it owns: overwrite it."""
+    if depth > 4:
+        return
+    if isinstance(x, np.ndarray):
+        try:
+            if x.flags.writeable and x.size:
+                x[...] = (x.dtype.type(-7) if x.dtype.kind in 'iuf' else not x.flat[0]) if x.dtype.kind in 'iufb' else x
+        except Exception:
+            pass
+    elif isinstance(x, dict):
+        for v in list(x.values()):
+            scribble(v, depth + 1)
+        x.clear()
+    elif isinstance(x, list):
+        for v in x:
+            scribble(v, depth + 1)
+        del x[:]
+    elif isinstance(x, tuple):
+        for v in x:
+            scribble(v, depth + 1)
+
+
 def fresh_reference(setname, opnames):
-    """Each operation executed alone in a fresh interpreter on equal arguments."""
+    """Each operation executed alone in a fresh interpreter on equal arguments.  Returns
+    {op: result snapshot} plus '@args' -> argument snapshot of the set."""
     env = dict(os.environ)
-    procs = []
     out = {}
-    names = list(opnames)
+    names = list(opnames) + ['@args']
     for i in range(0, len(names), core.NPROC):
         batch = names[i:i + core.NPROC]
         ps = [(n, subprocess.Popen([sys.executable, '-m', 'mc.props.C20', '--fresh', setname, n], cwd=core.VERIF, env=env,
                                    stdout=subprocess.PIPE, stderr=subprocess.PIPE)) for n in batch]
         for n, p in ps:
-            o, e = p.communicate(timeout=600)
+            o, e = p.communicate(timeout=900)
             if p.returncode != 0:
                 raise RuntimeError('fresh reference failed for %s/%s: %s' % (setname, n, e.decode()[-500:]))
             out[n] = pickle.loads(base64.b64decode(o.strip().splitlines()[-1]))
@@ -158,48 +219,84 @@ def mods():
     return [dsw.spiderweb, dsw.graphized, dsw.operation, dsw.biofilter]
 
 
-def run_history(r, setname, seq, ref, verbose_each=False):
-    """Execute the call sequence on one shared argument set; after every call compare with the
-    fresh-process reference, the argument snapshots and the state hash."""
-    A = build_args(setname)
-    a0 = args_snap(A)
+def run_steps(r, steps, refs):
+    """One history.  steps: ('op', set, name) | ('scribble',) | ('inplace', set).  Arguments of a set
+    are shared by all steps that name it.  After every call: result == fresh-process reference for
+    the set's current variant, arguments unchanged, nothing printed."""
+    live, variant, snap0 = {}, {}, {}
+    last_raw = None
     h0 = module_state(mods())
-    pre = 'C20|'
-    for i, name in enumerate(seq):
-        got, out = run_op(name, A)
+    label = ['%s:%s' % (x[1], x[2]) if x[0] == 'op' else x[0] + (':' + x[1] if len(x) > 1 else '') for x in steps]
+    for i, stp in enumerate(steps):
+        case = {'steps': [list(x) for x in steps], 'at': i}
+        if stp[0] == 'scribble':
+            scribble(last_raw)
+            for sname in list(live):          # results may alias arguments (the caller's own objects): rebuild them
+                if args_snap(live[sname]) != snap0[sname]:
+                    r.ctr['result_aliases_argument'] += 1
+                    live[sname] = build_args(variant[sname])
+            continue
+        sname = stp[1]
+        if sname not in live:
+            live[sname] = build_args(sname)
+            variant[sname] = sname
+            snap0[sname] = refs[sname]['@args']
+            if args_snap(live[sname]) != snap0[sname]:
+                r.ctr['HARNESS_ERROR'] += 1
+                r.samples.append('argument construction is not reproducible for ' + sname)
+        A = live[sname]
+        opname = stp[2] if stp[0] == 'op' else 'remove_arc_inplace'
+        got, out, last_raw = run_op(opname, A, raw=True)
         r.trans += 1
         r.evals += 1
-        case = {'set': setname, 'seq': list(seq), 'at': i}
-        if got != ref[name]:
-            r.v(pre + 'result-differs-from-fresh-process|op=%s|after=%s' % (name, '+'.join(seq[:i]) or 'nothing'), 'hist', case,
-                _short(ref[name]), _short(got))
-        a1 = args_snap(A)
-        if a1 != a0:
-            changed = [k for k in a0 if a0[k] != a1[k]]
-            r.v(pre + 'argument-modified|op=%s|arg=%s' % (name, '+'.join(changed)), 'hist', case, None, changed)
-            A = build_args(setname)
+        exp = refs[variant[sname]][opname]
+        ctx_ = '+'.join(label[:i]) or 'nothing'
+        if got != exp:
+            r.v('C20|result-differs-from-fresh-process|op=%s|history=%s' % (opname, _kind(steps)), 'hist', case, _short(exp), _short(got), 'after ' + ctx_)
+        if stp[0] == 'inplace':
+            variant[sname] = sname.split('@')[0] + '@removed'
+            snap0[sname] = refs[variant[sname]]['@args']
+            if args_snap(A) != snap0[sname]:
+                r.v('C20|in-place-removal-leaves-different-arguments-than-in-a-fresh-process', 'hist', case, None, None, 'after ' + ctx_)
+                live[sname] = build_args(variant[sname])
+        else:
+            a1 = args_snap(A)
+            if a1 != snap0[sname]:
+                changed = [k for k in a1 if a1[k] != snap0[sname][k]]
+                r.v('C20|argument-modified|op=%s|arg=%s' % (opname, '+'.join(changed)), 'hist', case, None, changed)
+                live[sname] = build_args(variant[sname])
         if out != '':
-            r.v(pre + 'prints-without-verbose|op=%s' % name, 'hist', case, '', out[:100])
-        h1 = module_state(mods())
-        if h1 != h0:
-            r.v(pre + 'module-state-changed|op=%s' % name, 'hist', case)
-            h0 = h1
+            r.v('C20|prints-without-verbose|op=%s' % opname, 'hist', case, '', out[:100])
     r.states += 1
-    if len(seq) > 1:
+    if len(steps) > 1:
         r.nontriv += 1
-    r.out.add(h0)
+    r.ctr['history_kind_' + _kind(steps)] += 1
+    if module_state(mods()) != h0:
+        r.ctr['histories_that_changed_module_state'] += 1     # informational: a correct memo is not a violation
 
 
-def verbose_case(r, setname, name, ref):
+def _kind(steps):
+    kinds = {x[0] for x in steps}
+    sets = {x[1] for x in steps if len(x) > 1}
+    if 'scribble' in kinds:
+        return 'scribble-result'
+    if 'inplace' in kinds:
+        return 'in-place-removal'
+    if len(sets) > 1:
+        return 'cross-content'
+    return 'depth-%d' % len(steps)
+
+
+def verbose_case(r, setname, name, refs):
     A = build_args(setname)
     a0 = args_snap(A)
     got, out = run_op(name, A, verbose=True)
     r.trans += 1
     r.evals += 1
-    case = {'set': setname, 'seq': [name], 'verbose': True, 'at': 0}
-    if got != ref[name]:
-        r.v('C20|verbose-changes-result-or-raises|op=%s' % name, 'verbose', case, _short(ref[name]), _short(got))
-    if args_snap(A) != a0:
+    case = {'steps': [['op', setname, name]], 'verbose': True, 'at': 0}
+    if got != refs[setname][name]:
+        r.v('C20|verbose-changes-result-or-raises|op=%s' % name, 'verbose', case, _short(refs[setname][name]), _short(got))
+    if args_snap(A) != a0 and name != 'remove_arc_inplace':     # documented to work in place
         r.v('C20|argument-modified|op=%s|verbose' % name, 'verbose', case)
     r.ctr['verbose_ops'] += 1
     if out:
@@ -211,32 +308,40 @@ def _short(x):
     return s if len(s) < 400 else s[:200] + ' ... ' + s[-150:]
 
 
-_REF = {}
-
-
 def check_case(r, kind, case):
-    ref = fresh_reference(case['set'], set(case['seq']))
+    steps = [tuple(x) for x in case['steps']]
+    sets = set()
+    for x in steps:
+        if len(x) > 1:
+            sets.add(x[1])
+            if x[0] == 'inplace':
+                sets.add(x[1].split('@')[0] + '@removed')
+    names = [n for n, f, v in ops()]
+    refs = {sname: fresh_reference(sname, names) for sname in sets}
     if kind == 'verbose':
-        verbose_case(r, case['set'], case['seq'][0], ref)
+        verbose_case(r, steps[0][1], steps[0][2], refs)
     else:
-        run_history(r, case['set'], case['seq'], ref)
+        run_steps(r, steps, refs)
 
 
 def _w(chunk):
     r = core.Res()
-    setname, ref, seqs = chunk
-    for seq in seqs:
-        run_history(r, setname, seq, ref)
-    r.sample({'set': setname, 'history': list(seqs[-1])}, 1)
+    refs, hists = chunk
+    for steps in hists:
+        run_steps(r, steps, refs)
+    r.sample({'history': [list(x) for x in hists[-1]]}, 1)
     return r
 
 
 def _w_verbose(chunk):
     r = core.Res()
-    setname, ref, names = chunk
+    setname, refs, names = chunk
     for n in names:
-        verbose_case(r, setname, n, ref)
+        verbose_case(r, setname, n, refs)
     return r
+
+
+PAIRS = [('literal2', 'other2'), ('generated3', 'other3'), ('mixed1', 'other1')]
 
 
 def run(ctx):
@@ -245,35 +350,51 @@ def run(ctx):
     install(mods())
     names = [n for n, f, v in ops()]
     vnames = [n for n, f, v in ops() if v]
-    sets = ['literal2', 'generated3', 'mixed1']
+    pure = [n for n in names if n != 'remove_arc_inplace']
     core_ops = ['encode', 'decode', 'encode_table', 'repair', 'coding_graph_t1', 'capacity_3_seeded', 'shuffles', 'scores',
                 'remove_arc_on_copies', 'find_vertices', 'lm_to_acc_t2', 'bit_to_number']
-    for s in sets:
-        ref = fresh_reference(s, names)
-        ctx.log('fresh-process references for', s, len(ref))
-        seqs = [(a,) for a in names] + [(a, b) for a in names for b in names]
-        if not ctx.quick:
-            seqs += [(a, b, c) for a in core_ops for b in core_ops for c in core_ops]
-        else:
-            seqs += [(a, b, c) for a in core_ops[:6] for b in core_ops[:6] for c in core_ops[:6]]
-        ctx.pmap(_w, [(s, ref, c) for c in core.chunks_of(seqs, 40)])
-        ctx.pmap(_w_verbose, [(s, ref, c) for c in core.chunks_of(vnames, 4)])
-    ctx.bounds = {'operations': len(names), 'verbose_operations': len(vnames), 'argument_sets': sets,
-                  'histories': 'depth 1 and 2 exhaustive (%d + %d per set); depth 3 over %d core operations' % (len(names), len(names) ** 2, 6 if ctx.quick else len(core_ops))}
-    ctx.rule = ('explicit-state search over call histories on one shared argument set: after every call the result must equal the '
-                'result of the same operation executed alone in a fresh interpreter on equal arguments (equal seed for the two '
-                'randomised calls), every argument must be bit-for-bit unchanged, nothing printed, and the state hash (arguments + '
-                'dsw module globals, function defaults, class dicts) must be the initial one; verbose=True must give the quiet '
-                'result; states = histories; non-trivial = histories of length >= 2')
-    ctx.assumptions = ['closure: every operation maps the initial state hash to itself, so histories of any length behave as fresh calls; '
-                       'depth 2-3 validates that the hash is not blind', 'remove_nasty_arc runs on private copies (documented to work in place)']
-    ctx.guard('single reachable state hash', len(ctx.res.out) == 1)
+    nh = 0
+    for a, b in PAIRS:
+        refs = {}
+        for sname in (a, b, a + '@removed'):
+            refs[sname] = fresh_reference(sname, names)
+        ctx.log('fresh-process references for', a, b, a + '@removed')
+        H = []
+        H += [[('op', a, x)] for x in pure]                                                   # depth 1
+        H += [[('op', a, x), ('op', a, y)] for x in pure for y in pure]                       # depth 2, exhaustive
+        co = core_ops[:6] if ctx.quick else core_ops
+        H += [[('op', a, x), ('op', a, y), ('op', a, z)] for x in co for y in co for z in co]  # depth 3, core ops
+        H += [[('op', a, x), ('scribble',), ('op', a, x)] for x in pure]                      # caller overwrites its result
+        H += [[('op', a, x), ('inplace', a), ('op', a, x)] for x in pure]                     # documented in-place call in between
+        H += [[('op', a, x), ('inplace', a), ('op', a, y)] for x in co for y in co if x != y]
+        H += [[('op', a, x), ('op', b, x), ('op', a, x)] for x in pure]                       # same order, other content
+        H += [[('op', b, x), ('op', a, y)] for x in co for y in pure]
+        nh += len(H)
+        ctx.pmap(_w, [(refs, c) for c in core.chunks_of(H, 40)])
+        ctx.pmap(_w_verbose, [(a, refs, c) for c in core.chunks_of(vnames, 4)])
+    ctx.bounds = {'operations': len(names), 'verbose_operations': len(vnames), 'argument_sets': [x for p in PAIRS for x in p],
+                  'histories': nh, 'history_kinds': 'depth 1; depth 2 exhaustive; depth 3 over %d core operations; X, caller overwrites result, X; '
+                  'X, in-place remove_nasty_arc on the shared graph, X (reference: fresh process on the modified arguments); X on set a, X on '
+                  'set b of the same order, X on set a' % (6 if ctx.quick else len(core_ops))}
+    ctx.rule = ('explicit-state search over call histories on shared argument sets: after every call the result must equal the result of the '
+                'same operation executed alone in a fresh interpreter on equal arguments (equal seed for the two randomised calls), every '
+                'argument must be bit-for-bit unchanged (the documented in-place arc removal excepted: there the arguments must equal those '
+                'of a fresh process after the same call) and nothing may be printed; verbose=True must give the quiet result; states = '
+                'histories; non-trivial = histories of length >= 2')
+    ctx.assumptions = ['a change of dsw module state is recorded but is not by itself a violation (a correct memo keeps the statement true); stale '
+                       'state is looked for through the history kinds above', 'results that alias an argument (connect_coding_graph returns the '
+                       'caller\'s own mask when nothing is trimmed) are the caller\'s objects: arguments are rebuilt after the scribble step']
     ctx.guard('verbose ops print', ctx.res.ctr['verbose_ops_that_print'] > 10)
+    ctx.guard('all history kinds ran', all(ctx.res.ctr['history_kind_' + k] > 0 for k in ('depth-1', 'depth-2', 'depth-3', 'scribble-result', 'in-place-removal', 'cross-content')))
+    ctx.cov['histories_that_changed_module_state'] = int(ctx.res.ctr['histories_that_changed_module_state'])
 
 
 if __name__ == '__main__':
     if len(sys.argv) >= 4 and sys.argv[1] == '--fresh':
         core.import_dsw()
         A = build_args(sys.argv[2])
-        got, out = run_op(sys.argv[3], A)
+        if sys.argv[3] == '@args':
+            got = args_snap(A)
+        else:
+            got, out = run_op(sys.argv[3], A)
         sys.stdout.write(base64.b64encode(pickle.dumps(got)).decode() + '\n')
